@@ -1997,3 +1997,99 @@ def failure_tests_see_the_sign(ctx, tag, roots, floor=3):
                           f.pq, f.text(val), f.nodes[val].get("type") or src.get("type")))
     ctx.counters["sign_tests"] = n
     ctx.floor("sign_tests", floor, "tests of a result for being negative on the kill path")
+
+
+def ruleset_state_is_per_instance(ctx):
+    """'Rulesets do not influence one another', 'its own post-action pause and suspended chain': the suspended chain, the pause deadline,
+    the plugin-override flag and the enablement of a ruleset are non-static data members of Ruleset - one per ruleset object (and per
+    cgroup instance).  A `static` member is one flag for all rulesets: a raise one ruleset never consumed is consumed by the next one."""
+    P = ctx.prog
+    rc = P.classes.get("Oomd::Engine::Ruleset")
+    if not rc:
+        ctx.broken("ruleset-class", "anchor", "-", "class Oomd::Engine::Ruleset not found")
+        return
+    for fld in ("active_action_chain_state_", "pause_actions_until_", "plugin_overrode_post_action_delay_"):
+        rec = [x for x in rc["fields"] if x["name"] == fld]
+        ctx.check(rec and not rec[0].get("static"), "per-instance-state:" + fld, "storage_class",
+                  "oomd/engine/Ruleset.h:%d" % (rec[0]["line"] if rec else 0),
+                  fld + " is a non-static member", fld + " is missing or static (shared between rulesets)")
+
+
+def json_nonscalar_arg_rejected(ctx, tag):
+    """The arguments a plugin runs with are the ones its configuration names - all of them (for a kill action: `dry` among them).
+    parsePlugin refuses the plugin when an argument value is not a JSON scalar; returning the partially filled plugin instead drops
+    that argument and every later one (jsoncpp iterates in key order) and the plugin is accepted with defaults in their place."""
+    P, cg = ctx.prog, ctx.cg
+    n = 0
+    for f in P.fns.values():
+        if f.pq != "parsePlugin" and not f.pq.endswith("::parsePlugin"):
+            continue
+        ctx.use(f)
+        n += 1
+        fl_ = Flow(P, f, cg=cg)
+        for r in returns(f):
+            g = fl_.guards(r)
+            nonscalar = any(p is False and isinstance(k, str) and k.endswith("isBool()") for k, p in g) and any(p is False and isinstance(k, str) and k.endswith("isString()") for k, p in g)
+            if not nonscalar:
+                continue
+            mentions_local = any(f.nodes[x]["k"] == "ref" and f.nodes[x].get("dk") == "local" for x in f.walk(f.nodes[r]["val"])) if "val" in f.nodes[r] else False
+            ctx.check(not mentions_local, "%s:json:nonscalar-arg-rejected:%s" % (tag, f.d.get("ret", "")[-20:]), "return_table", f.loc(r),
+                      "a non-scalar argument value yields the invalid plugin",
+                      "a non-scalar argument value (null, array, object) returns the partially filled plugin: that argument and all later ones - `dry` "
+                      "sorts after `cgroup` and `debug` - are dropped silently and the plugin runs with their defaults")
+    ctx.counters[tag + "_parsePlugin_instances"] = n
+    ctx.floor(tag + "_parsePlugin_instances", 2, "instantiations of parsePlugin (detector, action)")
+
+
+def detector_group_runs_every_detector(ctx, tag):
+    """'Its detectors keep running each tick': DetectorGroup::check runs every detector of the group exactly once per call and never
+    leaves the loop early - not on a STOP (the verdict is known, the remaining sliding windows still need their sample), and not
+    because the verdict will not be used."""
+    P = ctx.prog
+    chk = ctx.fn1("Oomd::Engine::DetectorGroup::check")
+    ctx.use(chk)
+    ls = loop_over(chk, "detectors_")
+    if len(ls) != 1:
+        ctx.broken(tag + ":check-loop", "anchor", chk.loc(), "expected one loop over detectors_ in check, found %d" % len(ls))
+        return
+    L = ls[0]
+    runs = [i for i in virtual_run_calls(chk, prog=P) if chk.pos_of(i)[0] in L["body"]]
+    ctx.counters[tag + "_virtual_run_sites"] = len(runs)
+    ctx.floor(tag + "_virtual_run_sites", 1, "the detector's run() in DetectorGroup::check")
+    per_iter_once(ctx, chk, L, runs, tag + ":check:every-detector-runs", "the detector's run()")
+    no_early_exit(ctx, chk, L, tag + ":check:no-early-exit", "detectors_")
+
+
+def no_use_after_move(ctx, fns, tag):
+    """A variable (parameter or local) that was handed to std::move is not read afterwards: a moved-from std::string / vector is
+    unspecified - in practice empty - so a test like `cgroup_fs.size() > 1` made after `cgroup_fs_(std::move(cgroup_fs))` is never
+    true.  Member initialisers count: they run before the body.  Assigning a new value to the variable revives it."""
+    P, cg = ctx.prog, ctx.cg
+    n = 0
+    for f in fns:
+        mv = [i for i in f.calls("std::move") if f.nodes[i].get("args") and f.nodes[f.strip(f.nodes[i]["args"][0])]["k"] == "ref"
+              and f.nodes[f.strip(f.nodes[i]["args"][0])].get("dk") in ("param", "local") and f.pos_of(i) is not None]
+        for m in mv:
+            n += 1
+            ctx.use(f)
+            var = f.nodes[f.strip(f.nodes[m]["args"][0])]
+            ev = {m: [("set", "mv")]}
+            # a local declared inside a loop is a new object in every iteration
+            for d_ in f.all("decl"):
+                if any(v_.get("decl") == var.get("decl") for v_ in f.nodes[d_].get("vars", [])) and f.pos_of(d_) is not None:
+                    ev.setdefault(d_, []).append(("clear", "mv"))
+            fl_ = Flow(P, f, events=ev, cg=cg)
+            bad = []
+            for x, nn in enumerate(f.nodes):
+                if nn["k"] == "ref" and nn.get("decl") == var.get("decl") and x != f.strip(f.nodes[m]["args"][0]) and f.pos_of(x) is not None:
+                    par = f.parent.get(x)
+                    is_assign = par is not None and ((f.nodes[par]["k"] == "bin" and f.nodes[par].get("op") == "=" and f.strip(f.nodes[par]["l"]) == x) or
+                                                     (f.nodes[par]["k"] == "call" and f.nodes[par].get("op") == "=" and f.strip(f.nodes[par].get("recv", -1)) == x))
+                    if fl_.may(x, "mv") and not is_assign:
+                        bad.append(x)
+            ctx.check(not bad, "%s:no-use-after-move:%s:%s" % (tag, short(f), var["name"]), "use_after_move", f.loc(bad[0]) if bad else f.loc(m),
+                      "'%s' is not read after std::move" % var["name"],
+                      "%s reads '%s' (%s) after it was handed to std::move at %s: the moved-from value is empty, so the test or copy made from it no longer "
+                      "sees the caller's text" % (f.pq, var["name"], f.text(f.parent.get(bad[0], bad[0]))[:60] if bad else "", f.loc(m)))
+    ctx.counters[tag + "_moves_examined"] = n
+    return n
